@@ -21,8 +21,11 @@ def IV(x):
 
 
 # exception kinds
-NONE, GENEXIT, UEXC, UBASE, EMPTY = 0, 1, 2, 3, 4
-KNAME = {GENEXIT: 'GeneratorExit', UEXC: 'UserException', UBASE: 'UserBaseException', EMPTY: 'queue.Empty'}
+NONE, GENEXIT, UEXC, UBASE, EMPTY, UEMPTY = 0, 1, 2, 3, 4, 5
+# UEMPTY: the *user's* code (source iterator / mapped function) raises queue.Empty itself - "raises anything" includes the
+# library exception types that the function under analysis catches for its own purposes
+KNAME = {GENEXIT: 'GeneratorExit', UEXC: 'UserException', UBASE: 'UserBaseException', EMPTY: 'queue.Empty', UEMPTY: 'UserQueueEmpty'}
+USER_KINDS = (UEXC, UBASE, UEMPTY)
 SENT = -2           # token for `object()`
 NOITEM = -1
 
@@ -40,11 +43,11 @@ def matches(exc_type_src, kind):
     if t is None or t == 'BaseException':
         return True
     if t == 'Exception':
-        return kind in (UEXC, EMPTY)
+        return kind in (UEXC, EMPTY, UEMPTY)
     if t == 'GeneratorExit':
         return kind == GENEXIT
     if t in ('queue.Empty', 'Empty'):
-        return kind == EMPTY
+        return kind in (EMPTY, UEMPTY)
     if t.startswith('(') and t.endswith(')'):
         return any(matches(x.strip(), kind) for x in t[1:-1].split(',') if x.strip())
     raise Unsupported('except ' + t)
@@ -301,8 +304,8 @@ class Compiler:
             p.edge(t, here, body, guard=lambda S: z3.And(S['$pulled'] != S['$fail_at'], S['$pulled'] < S['$n']),
                    upd=lambda S: {tgt: S['$pulled'], '$pulled': S['$pulled'] + 1}, label='next-item', line=L)
             p.edge(t, here, k, guard=lambda S: z3.And(S['$pulled'] != S['$fail_at'], S['$pulled'] >= S['$n']), label='next-stop', line=L)
-            for kind, isb in ((UEXC, False), (UBASE, True)):
-                p.edge(t, here, ctx.k_raise(kind), guard=lambda S, isb=isb: z3.And(S['$pulled'] == S['$fail_at'], S['$fail_base'] == isb),
+            for kind in USER_KINDS:
+                p.edge(t, here, ctx.k_raise(kind), guard=lambda S, kind=kind: z3.And(S['$pulled'] == S['$fail_at'], S['$fail_kind'] == kind),
                        upd=lambda S, kind=kind: {'$raised': IV(kind), '$src_failed': z3.BoolVal(True)}, label=f'next-raise-{KNAME[kind]}', line=L)
             return here
         if isinstance(s, ast.Break):
@@ -342,7 +345,7 @@ class Compiler:
             src = ast.unparse(s.exc)
             if src.startswith('exc_info[1]'):
                 here = p.newloc(t, f'raise@{L}')
-                for kind in (UEXC, UBASE):
+                for kind in USER_KINDS:
                     p.edge(t, here, ctx.k_raise(kind), guard=lambda S, kind=kind: S['exc_info'] == kind, label='reraise', line=L)
                 return here
             raise Unsupported('raise ' + src[:60])
@@ -610,9 +613,9 @@ class Compiler:
                     if meth in ('result', 'get'):
                         p.edge(t, here, after, guard=lambda S: self.st_get(S, S[rname]) == DONE_OK, upd=lambda S: {res: S[rname]},
                                label='future.result', line=L)
-                        for kind, isb in ((UEXC, False), (UBASE, True)):
+                        for kind in USER_KINDS:
                             p.edge(t, here, ctx.k_raise(kind),
-                                   guard=lambda S, isb=isb: z3.And(self.st_get(S, S[rname]) == DONE_EXC, S['$taskfail_base'] == isb),
+                                   guard=lambda S, kind=kind: z3.And(self.st_get(S, S[rname]) == DONE_EXC, S['$taskfail_kind'] == kind),
                                    upd=lambda S, kind=kind: {'$raised': IV(kind)}, label=f'future.result-raise-{KNAME[kind]}', line=L)
                     else:
                         p.edge(t, here, after, upd=lambda S: self.st_set(S, S[rname], IV(CANCELLED), self.st_get(S, S[rname]) == PENDING),
